@@ -45,7 +45,7 @@ type Strip struct {
 
 func main() {
 	cfg := &packages.Config{
-		Mode: packages.NeedName | packages.NeedFiles | packages.NeedSyntax | packages.NeedTypes | packages.NeedTypesInfo | packages.NeedImports | packages.NeedDeps,
+		Mode: packages.NeedName | packages.NeedFiles | packages.NeedSyntax | packages.NeedTypes | packages.NeedTypesInfo | packages.NeedImports,
 		Dir:  os.Args[1],
 	}
 	pkgs, err := packages.Load(cfg, "honnef.co/go/tools/...")
@@ -75,7 +75,7 @@ func main() {
 		var out []string
 		for _, name := range pkg.Scope().Names() {
 			tn, ok := pkg.Scope().Lookup(name).(*types.TypeName)
-			if !ok || tn.IsAlias() {
+			if !ok || tn.IsAlias() || !tn.Exported() {
 				continue
 			}
 			if _, isIface := tn.Type().Underlying().(*types.Interface); isIface {
@@ -182,7 +182,7 @@ func main() {
 						Scrutinee: typeStr(st),
 						Handled:   handled,
 					}
-					site.Forms = scrutineeForms(p, x, typeStr)
+					site.Forms = scrutineeForms(p, x, stack, typeStr)
 					site.DomainKind, site.Domain = domainOf(p, st, x, stack, astPkg, irPkg, typesPkg, irConstructed, implementers, typeStr)
 					if site.DomainKind == "types-iface" && hasForm(site.Forms, "coretype-call") {
 						site.Domain = append(site.Domain, "nil") // no core type
@@ -193,6 +193,44 @@ func main() {
 					site.Analyzer = analyzerOf(rel)
 					sites = append(sites, site)
 				case *ast.SwitchStmt:
+					if sw.Tag != nil {
+						if tt := p.TypesInfo.TypeOf(sw.Tag); tt != nil && typeStr(tt) == "token.Token" {
+							// switch tok { case token.EQL: ... default: panic(...) }
+							var def *ast.CaseClause
+							var handled []string
+							okCases := true
+							for _, c := range sw.Body.List {
+								cc := c.(*ast.CaseClause)
+								if cc.List == nil {
+									def = cc
+									continue
+								}
+								for _, e := range cc.List {
+									sel, isSel := e.(*ast.SelectorExpr)
+									if !isSel {
+										okCases = false
+										continue
+									}
+									handled = append(handled, "token."+sel.Sel.Name)
+								}
+							}
+							if def != nil && okCases && panics(p, def) {
+								counter[encl]++
+								sort.Strings(handled)
+								sites = append(sites, Site{
+									ID:         rel + ":" + encl + "#token" + strconv.Itoa(counter[encl]),
+									Pos:        fmt.Sprintf("%s:%d", rel, p.Fset.Position(sw.Pos()).Line),
+									Kind:       "tokenswitch",
+									Scrutinee:  "token.Token",
+									Handled:    handled,
+									DomainKind: "contextual", // the tokens that can reach the switch are listed in c03_expect.json
+									Forms:      []string{},
+									Analyzer:   analyzerOf(rel),
+								})
+							}
+							return true
+						}
+					}
 					// switch callee.Name() { case "append": ... default: panic(...) }
 					call, ok := sw.Tag.(*ast.CallExpr)
 					if !ok {
@@ -425,9 +463,58 @@ func analyzerOf(rel string) string {
 }
 
 // scrutineeForms recognises how the switched-over value is computed.
-func scrutineeForms(p *packages.Package, x ast.Expr, typeStr func(types.Type) string) []string {
+func scrutineeForms(p *packages.Package, x ast.Expr, stack []ast.Node, typeStr func(types.Type) string) []string {
 	forms := []string{}
 	x = ast.Unparen(x)
+	if id, ok := x.(*ast.Ident); ok {
+		// "unparen-assigned": every assignment to the switched variable in the enclosing
+		// function is a call of ast.Unparen / astutil.Unparen
+		var encl ast.Node
+		for i := len(stack) - 1; i >= 0 && encl == nil; i-- {
+			switch stack[i].(type) {
+			case *ast.FuncDecl, *ast.FuncLit:
+				encl = stack[i]
+			}
+		}
+		obj := p.TypesInfo.ObjectOf(id)
+		if encl != nil && obj != nil {
+			n, all := 0, true
+			ast.Inspect(encl, func(nd ast.Node) bool {
+				as, ok := nd.(*ast.AssignStmt)
+				if !ok || len(as.Lhs) != len(as.Rhs) {
+					if ok {
+						for _, l := range as.Lhs {
+							if lid, ok := l.(*ast.Ident); ok && p.TypesInfo.ObjectOf(lid) == obj {
+								all = false
+							}
+						}
+					}
+					return true
+				}
+				for i, l := range as.Lhs {
+					lid, ok := l.(*ast.Ident)
+					if !ok || p.TypesInfo.ObjectOf(lid) != obj {
+						continue
+					}
+					n++
+					call, ok := as.Rhs[i].(*ast.CallExpr)
+					if !ok {
+						all = false
+						continue
+					}
+					sel, ok := call.Fun.(*ast.SelectorExpr)
+					if !ok || sel.Sel.Name != "Unparen" {
+						all = false
+					}
+				}
+				return true
+			})
+			if _, isVar := obj.(*types.Var); isVar && n > 0 && all {
+				forms = append(forms, "unparen-assigned")
+			}
+		}
+		return forms
+	}
 	call, ok := x.(*ast.CallExpr)
 	if !ok {
 		return forms
@@ -598,7 +685,16 @@ func domainOf(p *packages.Package, st types.Type, x ast.Expr, stack []ast.Node, 
 
 func filterArgs(p *packages.Package, call *ast.CallExpr, typeStr func(types.Type) string) []string {
 	var out []string
+	var args []ast.Expr
 	for _, a := range call.Args {
+		// []ast.Node{(*ast.T)(nil), ...} (inspector.Nodes / WithStack)
+		if cl, ok := a.(*ast.CompositeLit); ok {
+			args = append(args, cl.Elts...)
+		} else {
+			args = append(args, a)
+		}
+	}
+	for _, a := range args {
 		// (*ast.T)(nil)
 		c, ok := a.(*ast.CallExpr)
 		if !ok || len(c.Args) != 1 {
